@@ -29,7 +29,7 @@ func (g *gen) pl(wid, blk, hash int, specs ...kit.Spec) kit.Payload {
 		specs = []kit.Spec{{State: 0, Elig: true}}
 	}
 	g.c.Script = append(g.c.Script, kit.ScriptEntry{Tag: g.tag, Specs: specs})
-	return kit.Payload{Wid: wid, Blk: blk, Hash: hash, Tag: g.tag, Lat: g.lat(1, 40), Kind: 1}
+	return kit.Payload{Wid: wid, Blk: blk, Hash: hash, Tag: g.tag, Lat: g.lat(1, 40), Kind: 1, Log: wid}
 }
 
 var (
@@ -270,7 +270,7 @@ func (g *gen) inject(kind int, slot int, pls ...kit.Payload) {
 	for i := range pls {
 		pls[i].Lat = int64(g.r.Range(1, 300))*ms + int64(g.r.Intn(1<<19)) + 1
 		if kind == kCondFinal || kind == kSample {
-			pls[i].Kind = 0
+			pls[i].Kind, pls[i].Log = 0, 0
 		}
 	}
 	g.c.Steps = append(g.c.Steps, c12Step{Op: "inject", Kind: kind, At: int64(slot) * sec, Pls: pls})
